@@ -20,8 +20,8 @@ from .common import viol
 ID = "C19"
 LEVEL = "exploration"
 TIERS = {
-    "quick": {"shards": 64, "examples": 10, "det_shards": 2},
-    "thorough": {"shards": 512, "examples": 30, "det_shards": 8},
+    "quick": {"shards": 96, "examples": 16, "det_shards": 2},
+    "thorough": {"shards": 768, "examples": 40, "det_shards": 8},
 }
 RULE = ("case = (cminx_gen_rst call, peer plan): input (file, flat or nested directory, missing path, file with a syntax "
         "error; relative inputs only under cmake -P), output directory, 0-4 extra arguments (flags with values, arguments "
@@ -44,7 +44,7 @@ ASSUMPTIONS = [
     "relative input/output paths are generated only in script mode, where CMake's cwd and the child's cwd coincide",
     "the find_package(cminx) packaging path (cminx-config.cmake.in + PyInstaller) is not covered",
 ]
-PROBES = ["stub_ok", "stub_exit_nonzero", "stub_killed", "stub_stderr_exit0", "stub_missing", "stub_noexec", "real_peer",
+PROBES = ["extra_repeated_token", "stub_ok", "stub_exit_nonzero", "stub_killed", "stub_stderr_exit0", "stub_missing", "stub_noexec", "real_peer",
           "real_peer_failing_input", "driver_project", "driver_script", "input_dir", "input_file", "input_missing",
           "extra_with_space", "extra_with_special", "extra_flag_value", "relative_paths"]
 
@@ -96,12 +96,16 @@ def strategy(cfg):
                 extra += ["-p", draw(st.sampled_from(["pfx", "My Prefix", "p.q"]))]
             if draw(st.booleans()):
                 extra += ["-e", draw(st.sampled_from(["*.txt", "m.cmake", "a/", "[mn]*.cmake"]))]
+                if draw(st.booleans()):
+                    extra += ["-e", draw(st.sampled_from(["n1.cmake", "b/", "pfx"]))]
             if draw(st.booleans()):
                 files["w/settings.yaml"] = "rst:\n  module_path_separator: '-'\n"
                 extra += ["-s", "{BASE}/w/settings.yaml"]
             plan = "real"
         else:
             extra = draw(st.lists(st.sampled_from(EXTRA_POOL), max_size=cfg["max_extra"]))
+            if extra and draw(st.integers(0, 3)) == 0:
+                extra = extra + [draw(st.sampled_from(extra))]      # a repeated token (two -e flags, equal values)
             plan = draw(st.sampled_from(["ok", "ok", "ok", "exit:1", "exit:3", "exit:255", "kill:9", "kill:11", "stderr",
                                          "missing", "noexec"]))
         return {"mode": mode, "driver": driver, "files": files, "input": inp, "input_kind": kind, "output": outp,
@@ -187,6 +191,8 @@ def evaluate(spec, ctx):
         want_argv = [inp] + (["-r"] if is_dir else []) + extra + ["-o", outp]
         ctx.probes["driver_" + spec["driver"]] += 1
         ctx.probes["input_" + {"dir": "dir", "file": "file", "missing": "missing", "badfile": "file"}[spec["input_kind"]]] += 1
+        if len(set(extra)) < len(extra):
+            ctx.probes["extra_repeated_token"] += 1
         if any(" " in e for e in extra):
             ctx.probes["extra_with_space"] += 1
         if any(c in e for e in extra for c in "\"$#\\*?[(@'"):
